@@ -192,6 +192,10 @@ def run(ctx):
     ctx.rule("R05.i", "in every @contextmanager, each write to object state (attribute/subscript store) made after the yield on the normal way out is also made on the way out of a failing body", floor=5)
     ctx.rule("R05.g", "a self-resetting Event is reset even when a watcher raises during the assignment: in Event.__set__ the reset is passed on the exceptional exit of super().__set__", floor=1)
     ctx.rule("R05.h", "a failing flush leaves no events behind: every exceptional exit of the flush passes a reset of both queues", floor=1)
+    ctx.rule("R05.o", "everything besides notifying comes before the first watcher runs, also in the reference resolver: in Resolver._resolve_value no `_update_refs` call is reachable after "
+                      "`self.value = ...` (whose watchers may raise)", floor=1)
+    ctx.rule("R05.v", "setter model, raising watcher: Parameter.__set__ interpreted with two watchers, no batch open, the first watcher raising: the exception leaves the setter and no watcher is "
+                      "handed to a queue on the way out without a flush (nothing stays queued for a later, unrelated assignment)", floor=1)
     ctx.rule("R05.r", "rx cache model (shared with R09.i): an exception escaping an expression's evaluation inside a watcher leaves the node dirty with the error stored; every later "
                       "invalidation (a valid assignment to an operand) clears that error, so the next evaluation recomputes instead of re-raising the stale exception -- the object dispatches "
                       "later assignments as a fresh one would", floor=1)
@@ -338,6 +342,8 @@ def run(ctx):
     event_model(ctx, "R05.y", "C05")
     from checks import setter_model
     setter_model.report(ctx, "C05", "R05.s")
+    setter_model.watcher_raises_model(ctx, "R05.v")
+    resolver_repoints_before_publishing(ctx, "R05.o")
     from checks import ctor_model
     ctor_model.report(ctx, "C05", "R05.k")
     from checks import namespace_model
@@ -556,3 +562,24 @@ def _extra_rules(ctx, scopes):
     # R05.f (the saved value is written back on every exit after the yield, as a shape of the function) was
     # replaced by the context-manager model R05.x, which runs the generator with the body supplied at the yield:
     # the shape rule rejected an equivalent in-place restore (`queue[:] = saved`).
+
+
+def resolver_repoints_before_publishing(ctx, rule):
+    """Resolver._resolve_value (behind `rx.resolve(recursive=True)` and the recursive resolution of references): assigning
+    `self.value` dispatches to downstream watchers, any of which may raise.  Re-pointing the resolver's own source
+    watchers (`self._update_refs(refs)`) must therefore not come AFTER that assignment on any path: an exception would
+    leave the resolver watching the dropped reference and not the new one."""
+    f = ctx.repo.func("param.reactive.Resolver._resolve_value")
+    cfg = ctx.facts.cfg(f)
+    selfn = f.params[0]
+    pubs = [n for n in cfg.live_nodes() for t in stores_in(n) if isinstance(t, ast.Attribute) and t.attr == "value" and isinstance(t.value, ast.Name) and t.value.id == selfn]
+    ctx.require(pubs, "Resolver._resolve_value no longer assigns self.value")
+    after = cfg.reachable_from(pubs, labels={"n", "t", "f"})
+    late = [n for n in after if n.kind != "br" and n.ast is not None and any(
+        isinstance(c, ast.Call) and isinstance(c.func, ast.Attribute) and c.func.attr == "_update_refs" for c in ast.walk(n.ast))]
+    if late:
+        ctx.fail(rule, f, late[0], "Resolver._resolve_value re-points its source watchers (`%s`) AFTER publishing the value: `self.value = ...` runs the downstream watchers, and when one of them "
+                                   "raises the resolver keeps watching the dropped reference and never watches the new one -- later assignments to the new source are not dispatched" % norm(late[0].ast)[:50],
+                 key=f.qualname + "::repoint-after-publish", input="a recursive resolve over a chain of two references; the inner link is re-pointed while a downstream .rx.watch callback raises")
+    else:
+        ctx.ok(rule, f, pubs[0], "the resolver's own watchers are re-pointed before the value is published (no _update_refs call is reachable after `self.value = ...`)")
